@@ -108,6 +108,7 @@ func (c02) Plan(tier string, seed int64) []mon.Workload {
 		{Name: "retyped-in-loop", N: int64(len(gen.BinOps) * len(c02Retypes) * len(c02RetypeLoops)), Exhaustive: true},
 		{Name: "literal-chains", N: int64(len(c02ChainOps) * len(c02Operands) * len(c02ChainConsts) * len(c02ChainConsts)), Exhaustive: true},
 		{Name: "in-context", N: int64(len(gen.BinOps) * len(c02CtxVals) * len(c02CtxVals) * len(c02Contexts)), Exhaustive: true},
+		{Name: "membership-after-write", N: int64(len(c02MemLens) * len(c02MemHomes) * len(c02MemWrites) * 4), Exhaustive: true},
 	}
 }
 
@@ -135,6 +136,63 @@ var c02Contexts = []string{
 	"for e in [1, 2] {\n  if x OP y {\n    continue\n  }\n  p(e)\n}\n",
 	"p([x OP y], {\"k\": x OP y})\n",
 	"z = x OP y\np(z)\n",
+}
+
+// membership-after-write (exhaustive): `v in L` is asked of the list as it is
+// NOW. Lists of 1..33 scalars (sizes on both sides of powers of two) that live
+// in a variable or inside another container, tested, written in place (directly,
+// through the path, through an alias, by a compound assignment) and tested
+// again - with and without the first test, on integers and on strings.
+var c02MemLens = []int{1, 2, 3, 7, 8, 9, 15, 16, 17, 32, 33}
+var c02MemHomes = [][2]string{{"a = LIST\n", "a"}, {"m = {\"k\": LIST, \"j\": [0]}\n", "m[\"k\"]"}, {"o = [LIST, 5]\n", "o[0]"}, {"o = [0, {\"q\": LIST}]\n", "o[1][\"q\"]"}}
+var c02MemWrites = []string{"L[I] = NEW", "al = L\nal[I] = NEW", "L[I] += DELTA", "L[-1] = NEW", "for i = 0; i < 2; i = i + 1 {\n  L[I] = NEW\n  p(NEW in L, OLD in L)\n  L[I] = OLD\n  p(NEW in L, OLD in L)\n}",
+	"w = L\nL[I] = NEW\np(NEW in w, OLD in w)"}
+
+func c02Membership(i int64) c02Case {
+	variant := int(i % 4) // bit 0: test before the write too; bit 1: strings instead of integers
+	i /= 4
+	wr := c02MemWrites[int(i)%len(c02MemWrites)]
+	i /= int64(len(c02MemWrites))
+	home := c02MemHomes[int(i)%len(c02MemHomes)]
+	n := c02MemLens[int(i)/len(c02MemHomes)]
+	el := func(j int) string {
+		if variant&2 != 0 {
+			return fmt.Sprintf("\"s%d\"", j)
+		}
+		return fmt.Sprint(10 + j)
+	}
+	var elems []string
+	for j := 0; j < n; j++ {
+		elems = append(elems, el(j))
+	}
+	at := n / 2
+	old, nw, delta := el(at), el(900), "890"
+	if variant&2 != 0 {
+		delta = "\"x\""
+		if strings.Contains(wr, "+=") {
+			nw = old[:len(old)-1] + "x\""
+		}
+	} else if strings.Contains(wr, "+=") {
+		nw = fmt.Sprint(10 + at + 890)
+	}
+	if strings.Contains(wr, "[-1]") {
+		old = el(n - 1)
+	}
+	rep := strings.NewReplacer("LIST", "["+strings.Join(elems, ", ")+"]", "L", home[1], "I", fmt.Sprint(at), "NEW", nw, "OLD", old, "DELTA", delta)
+	text := rep.Replace(home[0])
+	if variant&1 != 0 {
+		text += rep.Replace("p(OLD in L, NEW in L, 10 in L)\n")
+	}
+	text += rep.Replace(wr) + "\n" + rep.Replace("p(OLD in L, NEW in L, 10 in L, len(L))\np(L)\n")
+	o := drive.Parse("membership", text)
+	if o.Err != nil {
+		panic("c02: membership program does not parse: " + text + ": " + o.Err.Error())
+	}
+	l, err := gt.FromStmts(o.Stmts)
+	if err != nil {
+		panic(err)
+	}
+	return c02Case{Stmts: gt.CloneStmts(l), Point: gen.ModelPoint(gen.Rand(1), nil, nil), Cell: ""}
 }
 
 func c02InContext(i int64) c02Case {
@@ -245,6 +303,8 @@ func (c02) build(c *mon.Ctx, workload string, i int64) c02Case {
 		return c02Chain(i)
 	case "in-context":
 		return c02InContext(i)
+	case "membership-after-write":
+		return c02Membership(i)
 	case "binary-table":
 		src := int(i % 3)
 		i /= 3
@@ -412,6 +472,10 @@ func (k c02) Run(c *mon.Ctx, workload string, i int64) {
 	}
 	if !againV1(c, script, name, src, cs.Point, nil, mo, i%4 == 0 || workload != "table", "", info) {
 		return
+	}
+	if workload == "membership-after-write" {
+		// the same program on the v2 interpreter
+		runV2Text(c, "membership-after-write", src)
 	}
 	if c.WantSample() && mo.Unspecified == "" && (workload == "trees" || i%977 == 0) {
 		res := "error"
